@@ -138,6 +138,35 @@ pub fn gen_c14(rng: &mut Rng, _thorough: bool) -> History {
     let buggify = if variant & V14_BUGGIFY != 0 { 1 + rng.below(3) as u32 } else { 0 };
     let n = 1 + rng.usize(8);
     let blend = if rng.chance(1, 2) { BlendProfile::Destructive } else { BlendProfile::Uniform };
+    // The optimised routes are also taken while layers are open (they only look at the clip
+    // stack). Layers are opened either plainly or under a clip rect that is popped again before
+    // the eligible calls - the equalities of C14 are relative, so they do not depend on what
+    // such an interleaving of the two stacks ought to mean.
+    let mut layers = 0;
+    match rng.below(6) {
+        0 | 1 => {}
+        2 => {
+            em.push(0, Op::PushLayer { opacity: F(gen_alpha(rng)), blend: gen_blend(rng, BlendProfile::Common), plain: false });
+            layers = 1;
+        }
+        3 => {
+            em.push(0, Op::PushLayer { opacity: F(1.), blend: BLEND_SRC_OVER, plain: true });
+            em.push(0, Op::PushLayer { opacity: F(gen_alpha(rng)), blend: gen_blend(rng, BlendProfile::Common), plain: false });
+            layers = 2;
+        }
+        _ => {
+            let x1 = rng.range(0, w / 2 + 1);
+            let y1 = rng.range(0, h / 2 + 1);
+            em.push(0, Op::PushClipRect([x1, y1, rng.range(x1, w + 1), rng.range(y1, h + 1)]));
+            em.push(0, Op::PushLayer { opacity: F(if rng.chance(1, 2) { 1. } else { rng.unit() }), blend: gen_blend(rng, BlendProfile::Common), plain: false });
+            em.push(0, Op::PopClip);
+            layers = 1;
+            if rng.chance(1, 3) {
+                em.push(0, Op::PushLayer { opacity: F(1.), blend: BLEND_SRC_OVER, plain: true });
+                layers = 2;
+            }
+        }
+    }
     for _ in 0..n {
         let op = match rng.below(10) {
             0..=4 => {
@@ -174,7 +203,10 @@ pub fn gen_c14(rng: &mut Rng, _thorough: bool) -> History {
         };
         em.push(0, op);
     }
-    em.finish(buggify, variant, 2_000_000_000, format!("c14 variant={:#x} buggify={:#x}", variant, buggify))
+    for _ in 0..layers {
+        em.push(0, Op::PopLayer);
+    }
+    em.finish(buggify, variant, 2_000_000_000, format!("c14 variant={:#x} buggify={:#x} layers={}", variant, buggify, layers))
 }
 
 fn c14_twin_op(op: &Op, variant: u32) -> Op {
@@ -192,7 +224,7 @@ fn c14_twin_op(op: &Op, variant: u32) -> Op {
                 let xf = raqote::Transform::translation(-x.0, -y.0);
                 Op::Fill {
                     path: PathSpec::new(false, vec![Seg::Rect(*x, *y, F(img.w as f32), F(img.h as f32))]),
-                    src: SrcSpec { kind: SrcKind::Image { img: img.clone(), repeat: false, bilinear: true, xf: mk::unmat(&xf) }, pre: None },
+                    src: SrcSpec { kind: SrcKind::Image { img: img.clone(), repeat: false, bilinear: true, xf: mk::unmat(&xf) }, pre: None, user_xf: None },
                     opts: opts.clone(),
                 }
             } else {
@@ -372,7 +404,7 @@ fn c11_twin_op(op: &Op, ctm: &Mat, st: &mut Stats) -> Option<Op> {
             let xf = raqote::Transform::translation(-x.0, -y.0).then_scale(img.w as f32 / img.w as f32, img.h as f32 / img.h as f32);
             Some(Op::Fill {
                 path: xf_path(&PathSpec::new(false, vec![Seg::Rect(*x, *y, F(img.w as f32), F(img.h as f32))])),
-                src: with_pre(&SrcSpec { kind: SrcKind::Image { img: img.clone(), repeat: false, bilinear: true, xf: mk::unmat(&xf) }, pre: None }),
+                src: with_pre(&SrcSpec { kind: SrcKind::Image { img: img.clone(), repeat: false, bilinear: true, xf: mk::unmat(&xf) }, pre: None, user_xf: None }),
                 opts: opts.clone(),
             })
         }
@@ -387,7 +419,7 @@ fn c11_twin_op(op: &Op, ctm: &Mat, st: &mut Stats) -> Option<Op> {
             let xf = raqote::Transform::translation(-x.0, -y.0).then_scale(img.w as f32 / w.0, img.h as f32 / h.0);
             Some(Op::Fill {
                 path: xf_path(&PathSpec::new(false, vec![Seg::Rect(*x, *y, *w, *h)])),
-                src: with_pre(&SrcSpec { kind: SrcKind::Image { img: img.clone(), repeat: false, bilinear: true, xf: mk::unmat(&xf) }, pre: None }),
+                src: with_pre(&SrcSpec { kind: SrcKind::Image { img: img.clone(), repeat: false, bilinear: true, xf: mk::unmat(&xf) }, pre: None, user_xf: None }),
                 opts: opts.clone(),
             })
         }
@@ -427,7 +459,24 @@ pub fn run_c11(h: &History, st: &mut Stats) -> Outcome {
                 }
             }
             Some(Op::ReadViews) if !matches!(step.op, Op::ReadViews) => {
-                // curved stroke under a non-identity CTM: not compared; bring the twin along
+                // Curved stroke under a non-identity CTM. The flattening tolerance is an
+                // implementation detail, so no bit-exact twin exists; what the statement fixes
+                // is the geometry: the stroke is the image under T of the user-space stroke.
+                // Checked on canonical white-on-transparent renders with a 2 px margin.
+                if let Op::Stroke { path, style, opts, .. } = &step.op {
+                    match mk::guarded(budget, || curved_stroke_geometry(path, style, opts, &ctm, w, p.surfs[si].h())) {
+                        Ok(Ok(true)) => st.count("c11.curved_stroke_geometry_checked"),
+                        Ok(Ok(false)) => st.count("c11.curved_stroke_geometry_skipped_ill_conditioned"),
+                        Ok(Err(d)) => {
+                            return viol("c11.curved-stroke-geometry", i, format!("stroke of a curved path under CTM {:?} is not the image of the user-space stroke: {}", mk::mat(&ctm), d));
+                        }
+                        Err(pi) => {
+                            st.abort(&panic_class(&pi));
+                            return Outcome::Aborted(format!("curved stroke reference: {}", panic_desc(&pi)));
+                        }
+                    }
+                }
+                // bring the twin along
                 let s = &p.surfs[si];
                 if p.shadows[si].layer_depth() == 0 {
                     let mut sh = t.shadows[si].clone();
@@ -464,6 +513,70 @@ pub fn run_c11(h: &History, st: &mut Stats) -> Outcome {
     }
     st.nontrivial_flag = transformed_draws >= 1;
     Outcome::Ok
+}
+
+/// Ok(true): checked and fine, Ok(false): transform too anisotropic for the margin, Err: mismatch
+fn curved_stroke_geometry(path: &PathSpec, style: &StrokeSpec, opts: &Opts, ctm: &Mat, w: i32, h: i32) -> Result<bool, String> {
+    use raqote::*;
+    let t = mk::mat(ctm);
+    let det = t.determinant().abs();
+    if det == 0. || w <= 0 || h <= 0 {
+        return Ok(false);
+    }
+    let biggest = t.m11.abs().max(t.m12.abs()).max(t.m21.abs()).max(t.m22.abs());
+    if biggest / det.sqrt() > 3. {
+        return Ok(false);
+    }
+    // the length of a miter spike at a sharp corner depends strongly on the direction of the
+    // first chord of a flattened curve, i.e. on the flattening tolerance: not comparable
+    if style.join % 3 == 1 && style.miter_limit.0 * style.width.0 * 0.5 * biggest > 1.5 {
+        return Ok(false);
+    }
+    let white = Source::Solid(SolidSource { r: 255, g: 255, b: 255, a: 255 });
+    let o = DrawOptions { blend_mode: BlendMode::SrcOver, alpha: 1., antialias: if opts.aa { AntialiasMode::Gray } else { AntialiasMode::None } };
+    let mut a = DrawTarget::new(w, h);
+    a.set_transform(&t);
+    a.stroke(&mk::build_path(path), &white, &mk::build_style(style), &o);
+    // reference: the user-space outline (flattened finely), mapped by T, filled under the identity
+    let mut r = path.clone();
+    r.flatten = Some(F(0.1 / det.sqrt()));
+    r.stroke_first = Some(Box::new(style.clone()));
+    r.xf = Some(*ctm);
+    let mut b = DrawTarget::new(w, h);
+    b.fill(&mk::build_path(&r), &white, &o);
+    let (pa, pb) = (a.get_data(), b.get_data());
+    const M: i32 = 2;
+    for y in 0..h {
+        for x in 0..w {
+            let mut lo = 255u32;
+            let mut hi = 0u32;
+            for dy in -M..=M {
+                for dx in -M..=M {
+                    let (xx, yy) = (x + dx, y + dy);
+                    // beyond the surface nothing is known: treat as "both"
+                    let v = if xx < 0 || yy < 0 || xx >= w || yy >= h { None } else { Some(pb[(yy * w + xx) as usize] >> 24) };
+                    match v {
+                        Some(v) => {
+                            lo = lo.min(v);
+                            hi = hi.max(v);
+                        }
+                        None => {
+                            lo = 0;
+                            hi = 255;
+                        }
+                    }
+                }
+            }
+            let got = pa[(y * w + x) as usize] >> 24;
+            if lo == 255 && got < 128 {
+                return Err(format!("pixel ({},{}) lies more than {} px inside the region but has coverage {}", x, y, M, got));
+            }
+            if hi == 0 && got > 127 {
+                return Err(format!("pixel ({},{}) lies more than {} px outside the region but has coverage {}", x, y, M, got));
+            }
+        }
+    }
+    Ok(true)
 }
 
 #[allow(dead_code)]
